@@ -243,8 +243,10 @@ def run_query(sc, q, args):
             fails.append(r)
         elif st not in ('SUCCESS',):
             res['notes'].append('obligation %s status %s' % (r.get('property'), st))
-    if not seen_wit:
-        res['witness_missing'].append('(no witness in harness)')
+    required = set(q.get('witnesses') or ['end'])
+    res['witness_missing'] = [w for w in res['witness_missing'] if w in required]
+    for w in required - seen_wit:
+        res['witness_missing'].append(w + ' (not in harness)')
     res['nonwitness_obligations'] = res['obligations'] - len(seen_wit)
     # ---- confirm failures natively
     exe = None
@@ -306,7 +308,7 @@ def cmd_check(args):
     qs = [q for q in queries.QUERIES if q['prop'] == pid and tier in q.get('tiers', ('quick', 'thorough'))]
     if args.only:
         qs = [q for q in qs if args.only in q['id']]
-    meta = queries.PROPS[pid]
+    meta = queries.PROPS.get(pid, {})
     t0 = time.time()
     sc = Scratch(keep=args.keep)
     results = []
